@@ -114,7 +114,7 @@ def select_next_item(code: str, pos: int) -> SelectItemModel:
         elif token_type == TokenType.PropertyName:
             pending_property[0] = (start, end, delimiter)
         elif token_type == TokenType.PropertyValue:
-            section = SelectItemModel(start, delimiter + 1 if delimiter != -1 else end, [])
+            section = SelectItemModel(start, property_end(code, end, delimiter), [])
             result[0] = section
 
             if pending_property[0]:
@@ -169,7 +169,7 @@ def select_previous_item(code: str, pos: int) -> SelectItemModel:
         result = SelectItemModel(state.start, state.end, [])
 
         if state.value_start != -1:
-            result.end = state.value_delimiter + 1 if state.value_delimiter != -1 else state.value_end
+            result.end = property_end(code, state.value_end, state.value_delimiter)
             # Full property range
             push_range(result.ranges, (state.start, result.end))
 
@@ -183,6 +183,13 @@ def select_previous_item(code: str, pos: int) -> SelectItemModel:
             push_range(result.ranges, (state.start, state.end))
 
         return result
+
+
+def property_end(code: str, end: int, delimiter: int) -> int:
+    "Returns end of property whose value ends at `end`: right after its semicolon, if any"
+    if delimiter != -1 and code[delimiter] == ';':
+        return delimiter + 1
+    return end
 
 
 class ParsePropertiesState:
